@@ -351,8 +351,13 @@ func compileMetadata(
 	}
 	keyspace.Aggregates = make(map[string]*AggregateMetadata, len(aggregates))
 	for i, _ := range aggregates {
-		aggregates[i].FinalFunc = *keyspace.Functions[aggregates[i].finalFunc]
-		aggregates[i].StateFunc = *keyspace.Functions[aggregates[i].stateFunc]
+		// final_func is optional, and a function may be missing while the schema is changing
+		if f, ok := keyspace.Functions[aggregates[i].finalFunc]; ok {
+			aggregates[i].FinalFunc = *f
+		}
+		if f, ok := keyspace.Functions[aggregates[i].stateFunc]; ok {
+			aggregates[i].StateFunc = *f
+		}
 		keyspace.Aggregates[aggregates[i].Name] = &aggregates[i]
 	}
 	keyspace.Views = make(map[string]*ViewMetadata, len(views))
